@@ -70,6 +70,13 @@ type limOp struct {
 	V       int    `json:"v"`
 	I       int    `json:"i,omitempty"`
 	Outcome string `json:"outcome,omitempty"`
+	Items   []limItem `json:"items,omitempty"`
+}
+
+// limItem is one completion of a burst: I indexes the outstanding listeners left after the items before it.
+type limItem struct {
+	I       int    `json:"i"`
+	Outcome string `json:"outcome"`
 }
 
 type limSUT struct {
@@ -181,6 +188,35 @@ func (s *limSUT) apply(op limOp) (res J, err error) {
 		default:
 			l.OnDropped()
 		}
+	case "burst":
+		// the listed calls complete at once, each from its own goroutine behind a common start barrier
+		var picked []core.Listener
+		for _, it := range op.Items {
+			if it.I < 1 || it.I > len(s.ls) {
+				return nil, fmt.Errorf("no outstanding listener %d", it.I)
+			}
+			picked = append(picked, s.ls[it.I-1])
+			s.ls = append(append([]core.Listener{}, s.ls[:it.I-1]...), s.ls[it.I:]...)
+		}
+		start := make(chan struct{})
+		var wg sync.WaitGroup
+		for k, l := range picked {
+			wg.Add(1)
+			go func(l core.Listener, outcome string) {
+				defer wg.Done()
+				<-start
+				switch outcome {
+				case "success":
+					l.OnSuccess()
+				case "ignore":
+					l.OnIgnore()
+				default:
+					l.OnDropped()
+				}
+			}(l, op.Items[k].Outcome)
+		}
+		close(start)
+		wg.Wait()
 	default:
 		return nil, fmt.Errorf("unknown op %q", op.Op)
 	}
@@ -248,8 +284,10 @@ func TestLimiterRandom(t *testing.T) {
 	n := envInt("VERIF_N", 100)
 	w := newNdWriter(t, filepath.Join(outDir(t), "limiter_trace.ndjson"))
 	defer w.close()
-	for k := 0; k < n; k++ {
+	nb := envInt("VERIF_BURSTY", n/5)
+	for k := 0; k < n+nb; k++ {
 		k := k
+		bursty := k >= n // histories made mostly of concurrent bursts of completions on a roomy limiter
 		inBubble(t, func(t *testing.T) {
 			r := newRng(seed(), uint64(k))
 			cfg := limCfg{Strat: []string{"simple", "precise", "lookup", "predicate"}[k%4], WSize: r.between(10, 13),
@@ -257,6 +295,12 @@ func TestLimiterRandom(t *testing.T) {
 			cfg.MaxW = cfg.MinW + r.intn(6)
 			for i := r.between(1, 5); i > 0; i-- {
 				cfg.Script = append(cfg.Script, []int{-3, 0, 1, 2, 3, 5, 8, 16}[r.intn(8)])
+			}
+			if bursty {
+				cfg.Strat, cfg.Est0, cfg.Threshold = []string{"simple", "precise"}[k%2], r.between(8, 14), r.intn(2)
+				for i := range cfg.Script {
+					cfg.Script[i] = r.between(8, 16)
+				}
 			}
 			if r.chance(1, 3) { // repeated value
 				cfg.Script = append(cfg.Script, cfg.Script[len(cfg.Script)-1])
@@ -281,10 +325,48 @@ func TestLimiterRandom(t *testing.T) {
 			}
 			w.write(J{"ev": "Reset", "trace": k, "cfg": cfgOut, "post": s.observe()})
 			nops := r.between(80, 260)
+			if bursty {
+				nops = 700
+			}
+			sinceClose := 0 // completions since the last window seen by the algorithm: an upper bound of the window's count
 			for i := 0; i < nops; i++ {
 				var op limOp
 				x := r.intn(100)
+				if bursty {
+					switch {
+					case len(s.ls) < 2 || (x < 40 && len(s.ls) < 8):
+						x = 20 // acquire
+					case sinceClose+2 <= cfg.WSize && x < 85:
+						x = 0 // burst
+					case x < 92:
+						x = 99 // advance
+					default:
+						x = 50 // one completion
+					}
+				}
 				switch {
+				case x < 12 && len(s.ls) >= 2 && sinceClose+2 <= cfg.WSize:
+					// a burst of concurrent completions, small enough for the window not to become ready in mid-burst
+					kmax := len(s.ls)
+					if room := cfg.WSize - sinceClose; room < kmax {
+						kmax = room
+					}
+					left := len(s.ls)
+					kk := r.between(2, kmax)
+					if bursty {
+						kk = kmax
+					}
+					for j := 0; j < kk; j++ {
+						o := "success"
+						if y := r.intn(10); y == 0 {
+							o = "ignore"
+						} else if y <= 2 {
+							o = "dropped"
+						}
+						op.Items = append(op.Items, limItem{I: r.between(1, left), Outcome: o})
+						left--
+					}
+					op.Op = "burst"
 				case x < 40:
 					op = limOp{Op: "acq", Key: r.pick(keys)}
 				case x < 80 && len(s.ls) > 0:
@@ -297,7 +379,7 @@ func TestLimiterRandom(t *testing.T) {
 					op = limOp{Op: "comp", I: r.between(1, len(s.ls)), Outcome: o}
 				case x < 80:
 					op = limOp{Op: "acq", Key: r.pick(keys)}
-				case x >= 96:
+				case x >= 96 && !bursty:
 					op = limOp{Op: "ext", V: []int{-3, 0, 1, 2, 4, 7, 12}[r.intn(7)]}
 				default:
 					op = limOp{Op: "adv", D: r.between(1, 4)}
@@ -306,6 +388,13 @@ func TestLimiterRandom(t *testing.T) {
 				if err != nil {
 					w.write(J{"ev": "Op", "trace": k, "op": op, "res": J{"ok": false, "err": err.Error()}, "post": J{}})
 					return
+				}
+				if len(res["samples"].([]J)) > 0 {
+					sinceClose = 0
+				} else if op.Op == "comp" {
+					sinceClose++
+				} else if op.Op == "burst" {
+					sinceClose += len(op.Items)
 				}
 				w.write(J{"ev": "Op", "trace": k, "op": op, "res": res, "post": s.observe()})
 			}
